@@ -117,6 +117,17 @@ Theorem response_head_gate :
     existsb is_relay_start (evs redir x i) = true -> is_main_phase (s_phase (fst x)) = true.
 Proof. exact head_gate_proof. Qed.
 
+(** Backend-connection reuse: a backend connection is parked for reuse only when it owes
+    nothing (keep-alive AND its response terminated), so along every history — requests relayed,
+    cancelled by the client (RST_STREAM), timed out, retried — no request is ever attached to a
+    connection that still owes bytes of another response: no byte of response i can reach
+    request j <> i through a reused backend connection. *)
+Theorem no_cross_request_bytes :
+  forall (redir : option N) (h2 : bool) (history : list input) (i : input),
+    let x := run_st redir (fresh, init_conn h2) history in
+    existsb is_crosstalk (evs redir x i) = false /\ c_bdirty (snd (nxt redir x i)) = false.
+Proof. exact no_cross_request_bytes_proof. Qed.
+
 (** 4. bounded_wait (invariant form): after any history a live session has its
     frontend timer armed, and whatever is queued and sendable has WRITABLE armed
     in interest and event, so the queued answer is flushed without waiting for
@@ -138,13 +149,13 @@ Proof. exact bounded_wait_proof. Qed.
     WRITABLE (interest and event) where it was — so i's pending output is still
     scheduled and i's inputs meet the same connection state. *)
 Theorem isolation :
-  forall (redir : option N) (history : list input) (si : stream) (i : input) (bti : bool),
+  forall (redir : option N) (history : list input) (si : stream) (i : input) (bti bpi bdi : bool),
     let x := run_st redir (fresh, init_conn true) history in
     let k := mkC2 (c_h2 (snd x)) (c_int_w (snd x)) (c_ev_w (snd x)) (c_ftimer (snd x)) (c_closed (snd x))
-                  bti (c_btimer (snd x)) in
+                  bti (c_btimer (snd x)) bpi bdi (c_bparked (snd x)) (c_bdirty (snd x)) in
     backend_side i = true -> c_closed (snd x) = false ->
     let '(si', sj', k', e) := step2 gen_tables redir si (fst x) k false i in
-    si' = si /\ k_bt1 k' = bti /\ k_h2 k' = true /\ k_closed k' = false /\
+    si' = si /\ k_bt1 k' = bti /\ k_bp1 k' = bpi /\ k_bd1 k' = bdi /\ k_h2 k' = true /\ k_closed k' = false /\
     (k_ftimer k = true -> k_ftimer k' = true) /\
     (k_int_w k = true -> k_int_w k' = true) /\ (k_ev_w k = true -> k_ev_w k' = true) /\
     e = evs redir x i /\ sj' = fst (nxt redir x i).
@@ -176,6 +187,9 @@ Example one_answer_nonvacuous :
       [IReqHead; IConnect None; IReqSent; IBack1xx false; IBackTimeout] = [EvDefault 504]
   /\ run gen_tables None (fresh, init_conn false)
       [IReqHead; IConnect None; IReqSent; IBack101; IBackClose; IFrontWrite true] = [EvUpgrade]
+  /\ run gen_tables None (fresh, init_conn true)
+      [IReqHead; IConnect None; IReqSent; IBackHead; IFrontWrite false; IClientCancel; IReqHead; IConnect None]
+     = [EvRelayStart; EvCancelled; EvRecycle]
   /\ run gen_tables None (fresh, init_conn false)
       [IReqHead; IConnect None; IReqSent; IBackNoKeepAlive; IBackHead; IBackClose; IFrontWrite true]
      = [EvRelayStart; EvRelayEnd; EvClose].
